@@ -41,13 +41,13 @@ package xmlenc
 //@ ensures[C10] same: forall(0, len(p), func(k int) bool { return result[k] == p[k] })
 
 //@ contract Decrypt
-//@ requires[cfg] el: ciphertextEl != nil
+//@ requires el: ciphertextEl != nil
 
 //@ contract getCiphertext
-//@ requires[cfg] el: encryptedKey != nil
+//@ requires el: encryptedKey != nil
 
 //@ contract validateRSAKeyIfPresent
-//@ requires[cfg] el: encryptedKey != nil
+//@ requires el: encryptedKey != nil
 //@ requires[cfg] key: rsaKeyOK(key)
 //@ ensures[C11] keytype: err == nil ==> result != nil
 //@ -- an embedded certificate is parsed from the X509Certificate element's text, and the key is accepted only if that
@@ -66,7 +66,7 @@ package xmlenc
 //@ go func isRSAPub(k interface{}) bool { _, ok := k.(*rsa.PublicKey); return ok }
 
 //@ contract (CBC).Decrypt
-//@ requires[cfg] el: ciphertextEl != nil
+//@ requires el: ciphertextEl != nil
 //@ requires[cfg] cipher: e.cipher != nil
 //@ -- framing, the mirror image of Encrypt: a key of exactly the cipher's size keys the block cipher; the first block of
 //@ -- the cipher value is the IV and everything after it is decrypted as a whole; the result is that plaintext with the
@@ -80,7 +80,7 @@ package xmlenc
 //@ assert@call[C10] stripPadding #1 (buf []byte) uses plaintext []byte strips_padding_of_plaintext: sameSlice(buf, plaintext)
 
 //@ contract (GCM).Decrypt
-//@ requires[cfg] el: ciphertextEl != nil
+//@ requires el: ciphertextEl != nil
 //@ requires[cfg] cipher: e.cipher != nil
 //@ -- C11: every byte of the cipher value goes through the AEAD: the first NonceSize bytes as the nonce, all the rest as
 //@ -- the sealed text (so any modification is rejected by Open, assumed authentic), no additional data, and plaintext is
@@ -94,7 +94,7 @@ package xmlenc
 //@    e2 == nil && AEADOpened(aesgcm, nonce, text, out)
 
 //@ contract (RSA).Decrypt
-//@ requires[cfg] el: ciphertextEl != nil
+//@ requires el: ciphertextEl != nil
 //@ requires[cfg] key: rsaKeyOK(key)
 //@ requires[cfg] fn: e.keyDecrypter != nil
 //@ assert@call[C10,C11] field:xmlenc.RSA.keyDecrypter #1 (fn func(RSA, *rsa.PrivateKey, []byte) ([]byte, error), ea RSA, ka *rsa.PrivateKey) args_nonnil:
